@@ -100,6 +100,31 @@ def load_seeds(prop, verif_dir):
     return out
 
 
+class BenignPatch(SeedVariant):
+    """A behaviour-preserving refactoring kept as a unified diff under /verif/benign/<PROP>/<name>.diff: must not be reported."""
+
+    def __init__(self, name, diff_text):
+        SeedVariant.__init__(self, name, diff_text)
+        self.kind = 'B'
+        self.rule = '-'
+
+    @property
+    def name(self):
+        return 'B:patch:%s' % self.note
+
+
+def load_benign(prop, verif_dir):
+    import os
+    out = []
+    base = os.path.join(verif_dir, 'benign', prop)
+    if os.path.isdir(base):
+        for fn in sorted(os.listdir(base)):
+            if fn.endswith('.diff'):
+                with open(os.path.join(base, fn)) as f:
+                    out.append(BenignPatch(fn[:-5], f.read()))
+    return out
+
+
 class FuzzVariant:
     """Behaviour-preserving transformation (tools/benign_fuzz.py) of one file: must not change the verdict."""
     kind = 'B'
